@@ -98,6 +98,10 @@ parts:
 		if dq == nil || len(dq.Parts) != 1 {
 			break
 		}
+		if dq.Dollar {
+			// $"..." must not become $'...', which interprets backslash escapes.
+			break
+		}
 		lit, _ := dq.Parts[0].(*Lit)
 		if lit == nil {
 			break
